@@ -8,10 +8,11 @@ from vp.results import Ext, OUTCOMES
 PROPERTY = "C14"
 RULE = ("Generated asynchronous test programs for AsynchronousDeferredRunTest over a deterministic virtual-time "
         "reactor: setUp, test method, tearDown and 0..3 cleanups each independently return / raise (error, failure, "
-        "skip) / return a Deferred that fires or fails after a delay from a small lattice / never fires, and may leave "
+        "skip, an exception whose bool() is False) / return a Deferred that fires or fails after a delay from a small lattice / never fires, and may leave "
         "a delayed call behind, log an error to Twisted, or drop a failed Deferred; timeout from the same lattice "
         "(so equalities occur), optional SIGINT at a virtual instant, both runner variants, logging suppression and "
-        "capture on/off, followed by a trivially clean test in the same process. Oracle: exactly one outcome between "
+        "capture on/off (one third of the programs are 'single-fault': quiet everywhere except for one generated fault "
+        "in one stage), followed by a trivially clean test in the same process. Oracle: exactly one outcome between "
         "startTest and stopTest; the time-stamped stage log is a prefix of setUp -> test -> tearDown -> cleanups LIFO "
         "with each stage starting exactly when the previous one's Deferred fired; success <=> the timeline model says "
         "everything completed cleanly within the timeout with no logged error / dropped failure / leftover call; "
